@@ -323,7 +323,7 @@ class Gen:
         if depth > 0:
             kinds += ["ret", "err"]
         if not self.p["direct_only"]:
-            kinds += ["carry", "xblock_index"]
+            kinds += ["carry", "xblock_index", "xblock_cond"]
         for extra, n in self.p.get("weights", {}).items():
             if extra in kinds:
                 kinds += [extra] * n
@@ -377,6 +377,16 @@ class Gen:
                 return pin + [("assert",)] + body
             L = self.lab("PS")
             return pin + [("bz", L)] + body + [("label", L)]
+        if k == "xblock_cond":
+            # one operand of && / || was pushed in an EARLIER block (tealer sees an unknown stack value there); the
+            # conjunction / disjunction is consumed on either side
+            self.features.add("carry")
+            self.features.add("cond_operand_from_previous_block")
+            L, L2 = self.lab("XC"), self.lab("XD")
+            boundary = r.choice([[("label", L)], [("b", L), ("label", L)]])
+            tail = r.choice([[("assert",)], [("!",), ("assert",)], [("bz", L2), ("err",), ("label", L2)],
+                             [("bnz", L2), ("err",), ("label", L2)]])
+            return self.opaque() + boundary + self.cmp() + [r.choice([("&&",), ("||",)])] + tail
         if k == "carry":
             self.features.add("carry")
             s = self.nscratch
@@ -401,9 +411,9 @@ class Gen:
         if k == "ret":
             w = r.random()
             if w < 0.5:
-                return [("int", 1), ("return",)]
+                return self.int_ins(1) + [("return",)]
             if w < 0.7:
-                return [("int", 0), ("return",)]
+                return self.int_ins(0) + [("return",)]
             self.features.add("retcond")
             return self.cond() + [("return",)]
         if k == "err":
@@ -604,7 +614,20 @@ class Gen:
                 prog = prog[:-1] + [("callsub", self.subs[0])]
                 self.features.add("call_as_last_instruction")
         if self.intc_vals:
-            prog = [tuple(["intcblock"] + self.intc_vals)] + prog
+            icb = tuple(["intcblock"] + self.intc_vals)
+            w = r.random()
+            po = self.p.get("odd_intcblock", 0.15)
+            if w < po * 0.5:
+                # the constant block is not in the entry block: valid, the constants are the same at run time, but a tool that
+                # only reads an entry-block intcblock cannot resolve intc
+                self.features.add("unresolved_intc")
+                prog = [("b", "ICB0"), ("label", "ICB0"), icb] + prog
+            elif w < po:
+                # two (identical) constant blocks: the later one takes effect
+                self.features.add("unresolved_intc")
+                prog = [icb, icb] + prog
+            else:
+                prog = [icb] + prog
         if self.use_intc and not self.intc_vals:
             pass
         # prune calls to keep at least the structure valid: drop unused subroutine bodies? keep (dead code is legal)
